@@ -591,6 +591,66 @@ func checkListHelper(c *Ctx, r *Report, expFns []*ssa.Function) {
 		})
 		r.Check(trims && deletes && expands && guarded, "F15-list-helper", c.funcKey(fn), c.pos(fn.Pos()),
 			fmt.Sprintf("list helper must expand (%v), whitespace-trim (%v) and drop items that are empty afterwards (%v, guarded by an emptiness test %v)", expands, trims, deletes, guarded))
+		// every item is trimmed: the store of the trimmed value back into the
+		// list is executed on every iteration of the loop that reads the item
+		every := false
+		forEachInstr(fn, func(in ssa.Instruction) {
+			st, ok := in.(*ssa.Store)
+			if !ok {
+				return
+			}
+			ia, ok := st.Addr.(*ssa.IndexAddr)
+			if !ok || ia.X != ssa.Value(fn.Params[len(fn.Params)-1]) {
+				return
+			}
+			call, ok := st.Val.(*ssa.Call)
+			if !ok || !calleeIs(call, "strings", "", "TrimSpace") {
+				return
+			}
+			// the loop body starts at the block that loads the element
+			var body *ssa.BasicBlock
+			for _, b := range fn.Blocks {
+				for _, i2 := range b.Instrs {
+					if ia2, ok := i2.(*ssa.IndexAddr); ok && ia2.X == ia.X && b.Dominates(st.Block()) {
+						if body == nil || body.Dominates(b) == false && b.Dominates(body) {
+							body = b
+						}
+						if body == nil {
+							body = b
+						}
+					}
+				}
+			}
+			if body == nil || body.Idom() == nil {
+				return
+			}
+			header := body.Idom()
+			seen := map[*ssa.BasicBlock]bool{}
+			var bypass func(b *ssa.BasicBlock) bool
+			bypass = func(b *ssa.BasicBlock) bool {
+				if b == st.Block() {
+					return false
+				}
+				if b == header {
+					return true
+				}
+				if seen[b] {
+					return false
+				}
+				seen[b] = true
+				for _, s := range b.Succs {
+					if bypass(s) {
+						return true
+					}
+				}
+				return false
+			}
+			if !bypass(body) {
+				every = true
+			}
+		})
+		r.Check(every, "F15-list-helper", c.funcKey(fn)+": every item trimmed", c.pos(fn.Pos()),
+			"the whitespace-trimmed, expanded value must be stored back for every item of the list (no item may skip the trim, whether or not it contains a reference)")
 		return
 	}
 	r.Unresolved("list expansion helper", "no method of *Config with signature func([]string) []string calls os.Expand")
